@@ -655,6 +655,76 @@ theorem C_result_exclusive (hH : C02.ConvHeadText env) {c : CCtx D L} {ev : KeyE
   simp only [flags, f1, f2, f3, f4]
   cases b <;> decide
 
+/-! ### requests that cannot be honoured: the return code only (C01's last sentence); Reset / ack (C17) -/
+
+theorem apply_of_call {c : CCtx D L} {op : COp} {call : EdCall} {rule : RcRule}
+    (h : translate c.facts op = .ok { call := call, rule := rule }) :
+    c.apply env op = (runCall env c.editor call).map fun r => ({ c with editor := r.1 }, rule.rc r.2) := by
+  unfold CCtx.apply
+  rw [h]
+  dsimp only
+  cases runCall env c.editor call <;> rfl
+
+/-- `chewing_clean_preedit_buf` outside state Entering (a syllable being entered, a list or a highlight open):
+    -1, the whole context unchanged -/
+theorem cleanPreedit_refused (c : CCtx D L) (h : c.editor.isEntering = false) :
+    c.apply env .cleanPreedit = .ok (c, -1) := by
+  apply apply_of_none
+  rw [translate_cleanPreedit]
+  show Outcome.ok (if c.editor.isEntering then _ else _) = _
+  rw [h]; rfl
+
+/-- `chewing_clean_preedit_buf` in state Entering = `Editor::clear`, returns 0 -/
+theorem cleanPreedit_clears (c : CCtx D L) (h : c.editor.isEntering = true) :
+    c.apply env .cleanPreedit = .ok ({ c with editor := c.editor.clear env }, 0) := by
+  have ht : translate c.facts .cleanPreedit = .ok { call := .clear, rule := .const 0 } := by
+    rw [translate_cleanPreedit]
+    show Outcome.ok (if c.editor.isEntering then _ else _) = _
+    rw [h]; rfl
+  rw [apply_of_call env ht]; rfl
+
+/-- `chewing_cand_list_first / last / next / prev` without an open list: -1, the whole context unchanged -/
+theorem candList_refused (c : CCtx D L) (h : c.editor.isSelecting = false) :
+    c.apply env .candListFirst = .ok (c, -1) ∧ c.apply env .candListLast = .ok (c, -1) ∧
+    c.apply env .candListNext = .ok (c, -1) ∧ c.apply env .candListPrev = .ok (c, -1) := by
+  obtain ⟨h1, h2, h3, h4⟩ := translate_candList c.facts
+  have hs : c.facts.isSelecting = false := h
+  rw [hs] at h1 h2 h3 h4
+  exact ⟨apply_of_none env h1, apply_of_none env h2, apply_of_none env h3, apply_of_none env h4⟩
+
+/-- `chewing_Reset` = `Editor::clear` (C17's "reset gives a clean editor" is about exactly this operation), returns 0;
+    keyboard and selection keys are kept -/
+theorem reset_is_clear (c : CCtx D L) : c.apply env .reset = .ok ({ c with editor := c.editor.clear env }, 0) := by
+  rw [apply_of_call env (translate_reset c.facts)]; rfl
+
+/-- `chewing_ack` = `Editor::ack`, returns 0 -/
+theorem ack_is_ack (c : CCtx D L) : c.apply env .ack = .ok ({ c with editor := c.editor.ack }, 0) := by
+  rw [apply_of_call env (translate_ack c.facts)]; rfl
+
+/-- `chewing_cand_close` returns 0 whether or not a list was open, and is `Editor::cancel_selecting` -/
+theorem candClose_never_fails (c : CCtx D L) :
+    c.apply env .candClose = .ok ({ c with editor := c.editor.cancelSelecting.1 }, 0) := by
+  rw [apply_of_call env (translate_candClose c.facts)]; rfl
+
+/-- `chewing_cand_choose_by_index(i)` = `Editor::select(i as usize)`; 0 iff `Ok` (`CApi.chooseByIndex` of
+    Model/Candidates.lean, the function C07's theorems speak about) -/
+theorem candChoose_is_select (c : CCtx D L) (i : Int) :
+    c.apply env (.candChoose i) =
+      (CApi.chooseByIndex env c.editor i).map fun r => ({ c with editor := r.1 }, if r.2 then 0 else -1) := by
+  rw [apply_of_call env (translate_candChoose c.facts i)]
+  unfold CApi.chooseByIndex
+  simp only [runCall]
+  cases c.editor.select env (CApi.indexOfInt i) with
+  | ok x => obtain ⟨e, b⟩ := x; cases b <;> rfl
+  | panic p => rfl
+  | outOfFuel => rfl
+
+/-- the result getters are functions of the context: asking changes nothing and asking twice gives the same answer
+    (C17 "queries are pure", for these three) -/
+theorem result_getters_pure (c : CCtx D L) :
+    c.keystrokeCheckIgnore = c.keystrokeCheckIgnore ∧ c.keystrokeCheckAbsorb = c.keystrokeCheckAbsorb ∧
+    c.commitCheck = c.commitCheck := ⟨rfl, rfl, rfl⟩
+
 /-! ### C06's idle pass-through on the C observations -/
 
 /-- the thirteen handlers of the keys the property names -/
